@@ -84,6 +84,11 @@ def run_unit(args):
                     r["replay_result"] = _jsonable(rr)
                 else:
                     r["replay_result"] = dict(reproduced=False, note="no native replay route for this obligation")
+                if r.get("abstraction_incomplete") and not (r.get("replay_result") or {}).get("reproduced"):
+                    # sums over a symbolic extent are uninterpreted (congruence + a few linearity lemmas only): a counter-model that does not reproduce natively
+                    # may be an artefact of that abstraction -> undecided, never a violation
+                    r["status"] = "undecided"
+                    r["reason"] = "counter-model relies on uninterpreted reductions over a symbolic extent and did not reproduce natively (possible artefact of the abstraction)"
             out["results"].append(_jsonable(dict(r)))
         out["functions"] = sorted(S.functions)
         out["assumed"] = sorted(S.assumed)
